@@ -14,7 +14,8 @@ RULE = ("seeded random programs: 1-6 classes in hierarchies of depth 1-5 (single
         "own or inherited __init__, overridable methods), 0-3 functions; bodies of kwargs.pop/get and at most one forwarding "
         "call (super().__init__, function, class, self.method) with positional and hard-coded keyword arguments; names from "
         "small pools so that collisions happen; programs that cannot be called successfully at all are discarded. Each "
-        "program is written to a real source file, resolved with get_signature_parameters and add_class_arguments, and "
+        "program is written to real source files (four in ten split over two modules: a library with the first top-level items "
+        "and a module with the rest that imports only the names its own text uses), resolved with get_signature_parameters and add_class_arguments, and "
         "instantiated with up to 40 keyword sets. Non-trivial: the resolved class forwards **kwargs at least once; "
         "distinct = distinct (program text, target)")
 TRUSTED = [
@@ -102,6 +103,47 @@ def render(prog):
                 body.append("    pass")
             out.append(head + "\n" + "\n\n".join(body))
     return "\n\n\n".join(out) + "\n"
+
+
+LIB = "{LIB}"  # placeholder for the name of the first module; the runner substitutes the real module name
+
+
+def _refs(prog, items):
+    """Top-level names (C<i>, f<i>) that the source text of these items refers to."""
+    names = []
+    fns = []
+    for kind, i in items:
+        if kind == "f":
+            fns.append(prog["funcs"][i])
+        else:
+            c = prog["classes"][i]
+            names += ["C%d" % b for b in c["bases"]]
+            fns += ([c["init"]] if c["init"] is not None else []) + [f for _, f in c["meths"]]
+    for fn in fns:
+        for s in fn["body"]:
+            if s[0] == "call" and s[1][0] in ("func", "class"):
+                names.append(("f%d" if s[1][0] == "func" else "C%d") % s[1][1])
+    return list(dict.fromkeys(names))
+
+
+def render_split(prog, split):
+    """The same program as two source files: the first `split` top-level items (base classes, helper functions) in a
+    library module, the rest in a second module that imports from the library exactly the names its own text refers to
+    (bases, callables it calls itself) and nothing else -- in particular not the helpers that inherited code calls.
+    Python's semantics do not depend on the split; a resolver that looks names up in the wrong module's globals does."""
+    a, b = prog["order"][:split], prog["order"][split:]
+    defined_a = {("f%d" if k == "f" else "C%d") % i for k, i in a}
+    imports = [n for n in _refs(prog, b) if n in defined_a]
+    src_a = render(dict(prog, order=a))
+    src_b = ("from %s import %s\n\n\n" % (LIB, ", ".join(imports)) if imports else "") + render(dict(prog, order=b))
+    return src_a, src_b
+
+
+def sources(case):
+    split = case.get("split") or 0
+    if 0 < split < len(case["prog"]["order"]):
+        return list(render_split(case["prog"], split))
+    return [render(case["prog"])]
 
 
 def g_fn(fn):
@@ -414,7 +456,14 @@ def runnable(prog, target):
 
 
 def mk_case(rng, prog, target):
-    return {"prog": prog, "target": target, "masks": [rng.getrandbits(14) for _ in range(4)]}
+    case = {"prog": prog, "target": target, "masks": [rng.getrandbits(14) for _ in range(4)]}
+    # four programs in ten are written to TWO source files: a library with the first items and a module with the rest;
+    # the split point is anywhere that leaves the target class in the second file
+    order = prog["order"]
+    pos = order.index(["c", target])
+    if pos >= 1 and rng.random() < 0.4:
+        case["split"] = rng.randint(1, pos)
+    return case
 
 
 def fixed_cases():
@@ -455,6 +504,18 @@ def fixed_cases():
     I2 = {"bases": [1], "init": None, "meths": []}
     I3 = {"bases": [2], "init": {"params": [["c", 0, [0, 2]]], "kw": True, "body": [["call", ["super"], 0, []]]}, "meths": []}
     cases.append({"prog": {"funcs": [], "classes": [A, I1, I2, I3], "order": [["c", i] for i in range(4)]}, "target": 3, "masks": [1, 2, 3, 0]})
+    # programs split over two source files (the split point counts top-level items): inherited code in the second file's
+    # classes refers to names that exist only in the library's globals
+    F0 = {"params": [["p", 0, [0, 1]], ["q", 2, [2, 0]]], "kw": False, "body": []}
+    V = {"bases": [], "init": {"params": [["a", 0, [0, 0]]], "kw": True, "body": [["call", ["func", 0], 0, []]]}, "meths": []}
+    cases.append({"prog": {"funcs": [F0], "classes": [V, {"bases": [0], "init": None, "meths": []}],
+                           "order": [["f", 0], ["c", 0], ["c", 1]]}, "target": 1, "masks": [1, 2, 3, 0], "split": 2})
+    W = {"bases": [], "init": {"params": [["c", 0, [0, 3]], ["r", 1, [1, 0]]], "kw": False, "body": []}, "meths": []}
+    K = {"bases": [], "init": {"params": [["e", 1, [1, 1]]], "kw": True, "body": [["call", ["meth", 0], 0, []]]},
+         "meths": [[0, {"params": [["b", 0, [0, 1]]], "kw": True, "body": [["call", ["class", 0], 0, ["r"]]]}]]}
+    H = {"bases": [1], "init": {"params": [["h", 0, [0, 2]]], "kw": True, "body": [["call", ["super"], 0, []]]}, "meths": []}
+    cases.append({"prog": {"funcs": [], "classes": [W, K, H], "order": [["c", 0], ["c", 1], ["c", 2]]},
+                  "target": 2, "masks": [1, 2, 3, 0], "split": 2})
     return cases
 
 
@@ -478,7 +539,7 @@ def generate(rng, tier):
 
 
 def observe(cases):
-    payloads = [{"source": render(c["prog"]), "target": "C%d" % c["target"], "universe": universe(c["prog"]),
+    payloads = [{"sources": sources(c), "target": "C%d" % c["target"], "universe": universe(c["prog"]),
                  "masks": c["masks"]} for c in cases]
     k = max(1, min(16, len(cases) // 25))  # few cases (shrinking, replays): few interpreter start-ups
     res = run_impl_parallel("c13_kwargs.py", [{"cases": payloads[i::k]} for i in range(k)])
@@ -499,7 +560,7 @@ def forwards(prog, target):
 def nontrivial_key(case, obs):
     if not forwards(case["prog"], case["target"]):
         return None
-    return render(case["prog"]) + "#%d" % case["target"]
+    return "\n#----\n".join(sources(case)) + "#%d" % case["target"]
 
 
 def category(case, obs):
@@ -512,7 +573,9 @@ def category(case, obs):
 
 
 def describe(case, obs):
-    return {"source": render(case["prog"]), "target": "C%d" % case["target"],
+    src = sources(case)
+    return {"source": src[0] if len(src) == 1 else "# ---- file lib.py\n%s\n# ---- file app.py ({LIB} = lib)\n%s" % tuple(src),
+            "target": "C%d" % case["target"],
             "offered_by_get_signature_parameters": [[p["name"], p["ann"], p["default"]] for p in obs["offered"]],
             "add_class_arguments": obs["parser"], "mro": obs["mro"],
             "calls": [[" ".join(s), o] for s, o in obs["trials"]]}
